@@ -91,6 +91,11 @@ func (g *clientGen) socketCases() []KCase {
 			out = append(out, KCase{Kind: "spoof", Buf: hex.EncodeToString(b), Multicast: mc})
 		}
 	}
+	// spoofed datagrams beyond what the client's receive buffer holds: the reads after the overrun (ENOBUFS) are
+	// checked like any other
+	for _, n := range []int{40, 200, 1000} {
+		out = append(out, KCase{Kind: "spoofoverrun", Calls: n, Multicast: true}, KCase{Kind: "spoofoverrun", Calls: n})
+	}
 	out = append(out, KCase{Kind: "concsend", Goroutines: 8, Calls: g.ctx.N(25000, 250000)})
 	out = append(out, KCase{Kind: "concsend", Goroutines: 2, Calls: g.ctx.N(50000, 500000)})
 	// concurrent Sends whose wire bytes the kernel echoes back: framing under parallelism
@@ -336,6 +341,88 @@ func runSpoofCase(ctx *Ctx, c KCase, idx int) *common.Violation {
 		}
 		got++ // an error that is not "no data": a datagram was read and rejected
 	}
+}
+
+// runSpoofOverrunCase: a fresh NETLINK_USERSOCK client whose receive buffer is made as small as the kernel allows is
+// sent c.Calls datagrams of 900 bytes by a non-kernel socket (more than the buffer holds: the kernel drops some and
+// reports the overrun, ENOBUFS, on a later read). Whatever the reads return in between, none of them returns data.
+func runSpoofOverrunCase(ctx *Ctx, c KCase, idx int) *common.Violation {
+	socks.open(ctx)
+	if socks.sendErr != nil {
+		socks.note(ctx, "user", "C18 overrun clause NOT explored: cannot open a NETLINK_USERSOCK socket: "+socks.sendErr.Error())
+		return nil
+	}
+	group := socks.group
+	nl, err := libaudit.NewNetlinkClient(syscall.NETLINK_USERSOCK, group, make([]byte, 4096), nil)
+	if err != nil {
+		socks.note(ctx, "overrun", "C18 overrun clause NOT explored: "+err.Error())
+		return nil
+	}
+	defer nl.Close()
+	rv := reflect.ValueOf(nl).Elem()
+	fd, pid := -1, uint32(0)
+	for i := 0; i < rv.NumField(); i++ {
+		f := rv.Field(i)
+		if f.Kind() == reflect.Int && fd < 0 {
+			if _, err := syscall.GetsockoptInt(int(f.Int()), syscall.SOL_SOCKET, syscall.SO_TYPE); err == nil {
+				fd = int(f.Int())
+			}
+		}
+		if rv.Type().Field(i).Name == "pid" && f.Kind() == reflect.Uint32 {
+			pid = uint32(f.Uint())
+		}
+	}
+	if fd < 0 || (!c.Multicast && pid == 0) {
+		socks.note(ctx, "overrun-fd", "C18 overrun clause NOT explored: the client's descriptor or port id could not be determined")
+		return nil
+	}
+	syscall.SetsockoptInt(fd, syscall.SOL_SOCKET, syscall.SO_RCVBUF, 1)
+	to := &syscall.SockaddrNetlink{Family: syscall.AF_NETLINK, Pid: pid}
+	if c.Multicast {
+		to = &syscall.SockaddrNetlink{Family: syscall.AF_NETLINK, Groups: group}
+	}
+	ctx.Res.Count(c.canon(), true)
+	ctx.Res.Hist("spoof_overrun")
+	body := make([]byte, 900-16)
+	for i := range body {
+		body[i] = byte('a' + i%26)
+	}
+	sent := 0
+	for i := 0; i < c.Calls; i++ {
+		b := dgram(900, 1300, 0, 0, 0, body)
+		if err := syscall.Sendto(socks.sender, b, syscall.MSG_DONTWAIT, to); err == nil || errors.Is(err, syscall.ECONNREFUSED) {
+			sent++
+		}
+	}
+	var data [][]byte
+	parser := func(p []byte) ([]syscall.NetlinkMessage, error) {
+		data = append(data, append([]byte(nil), p[:16]...))
+		return []syscall.NetlinkMessage{{Header: syscall.NlMsghdr{Type: 1300}, Data: p}}, nil
+	}
+	rejected, overruns, idle := 0, 0, 0
+	for reads := 0; reads < 4*c.Calls+64 && idle < 3; reads++ {
+		msgs, err := nl.Receive(true, parser)
+		if err == nil || len(msgs) > 0 || len(data) > 0 {
+			return &common.Violation{Kind: "monitor", Clause: fmt.Sprintf("C18: Receive returned data for a datagram sent by a non-kernel netlink socket (%s; read %d after %d datagrams were sent to a client whose receive buffer holds a few, %d receive-buffer overruns reported so far)",
+				map[bool]string{false: "unicast", true: "multicast"}[c.Multicast], reads+1, sent, overruns), Input: c,
+				Impl: fmt.Sprintf("msgs=%d err=%v parser-called-with=%s", len(msgs), err, kHexList(data)), Case: idx}
+		}
+		switch {
+		case errors.Is(err, syscall.EAGAIN):
+			idle++
+		case errors.Is(err, syscall.ENOBUFS):
+			overruns++
+			idle = 0
+		case errors.Is(err, syscall.EINTR):
+		default:
+			rejected++
+			idle = 0
+		}
+	}
+	if overruns > 0 {
+		ctx.Res.Hist("spoof_overrun_reported")
+	}
+	return nil
 }
 
 // ---- concurrent Send ----------------------------------------------------------------------------
